@@ -227,5 +227,6 @@ pub fn run(env: &Env) -> i32 {
     };
     rep.probe("C12-variable-directives-dropped", probe);
     rep.campaign("embedded-documents", env.cases(16_000, 200_000), (300, 1500), case_fn);
+    rep.merge_extra_evidence("loader_abi", "loader route (vh-loader C12)");
     rep.finish()
 }
